@@ -106,6 +106,12 @@ EXC_BASES = {
     "subprocess.CalledProcessError": "SubprocessError",
     "XonshCalledProcessError": "XonshError",  # also CalledProcessError (multiple inheritance)
     "DirectoryStackError": "Exception",
+    # sqlite3 (PEP 249 hierarchy)
+    "sqlite3.Error": "Exception",
+    "DatabaseError": "sqlite3.Error",
+    "OperationalError": "DatabaseError",
+    "IntegrityError": "DatabaseError",
+    "ProgrammingError": "DatabaseError",
 }
 EXC_EXTRA_BASES = {"XonshCalledProcessError": ["CalledProcessError"]}
 EXC_ALIASES = {
@@ -113,6 +119,8 @@ EXC_ALIASES = {
     "json.JSONDecodeError": "JSONDecodeError",
     "subprocess.CalledProcessError": "CalledProcessError",
     "builtins.Exception": "Exception",
+    "sqlite3.OperationalError": "OperationalError", "sqlite3.DatabaseError": "DatabaseError",
+    "sqlite3.IntegrityError": "IntegrityError", "sqlite3.ProgrammingError": "ProgrammingError",
 }
 
 
